@@ -34,6 +34,32 @@ SCRIPTS = [
     ["name p12", "version 1.0", "target X8 (phases=[%(i)s, %(i)s, %(f)s], names=[\"a\", \"b\"])", "type tdm (shifts=[%(i)s, %(i)s], copies=%(i)s)", "", "Dgate({a}, k=[%(f)s, %(f)s]) | %(m)s", "Vac | %(m)s"],
     ["name p10", "version 1.0", "", "complex c = %(c)s", "Zgate(c, %(c)s) | %(m)s", "Vac | [%(m)s, %(m)s]"],
 ]
+def _edit_api_plain(prog):
+    """a loaded program extended by hand, the way API users assemble operations: SymPy expressions over names that look like
+    registers (not wrapped in a transform), tuple modes, NumPy scalars"""
+    import sympy
+    q0, q1 = sympy.Symbol("q0"), sympy.Symbol("q1")
+    prog._operations.append({"op": "Xgate", "args": [sympy.sqrt(2) * q0, 0.5], "kwargs": {"k": q1 - q0}, "modes": [7]})
+    prog._operations.append({"op": "Ygate", "args": [np.float64(0.25)], "kwargs": {"n": np.int64(3), "lst": [1, 2.5]}, "modes": (8, 9)})
+    prog._operations.append({"op": "Zgate", "modes": [7]})
+    return prog
+
+
+def _edit_api_template(prog):
+    """a loaded template extended by hand with a further parameter"""
+    import sympy
+    g = sympy.Symbol("gamma")
+    prog._parameters.append(g)
+    prog._operations.append({"op": "Ygate", "args": [g * 2, np.float64(0.25)], "kwargs": {"n": np.int64(3), "lst": [g, 1, 2.5]}, "modes": (8, 9)})
+    prog._operations.append({"op": "Zgate", "modes": [8]})
+    return prog
+
+
+EDITS = {12: _edit_api_plain, 13: _edit_api_template}
+SCRIPTS += [
+    ["name e1", "version 1.0", "", "MeasureX | 0", "Dgate(%(f)s) | %(m)s"],
+    ["name e2", "version 1.0", "", "Dgate({a}, %(f)s) | %(m)s", "Vac | %(m)s"],
+]
 OPS = ["dumps", "to_DiGraph", "attributes", "call", "match_as_template", "match_as_program", "dumps_twice", "graph_then_dumps"]
 
 
@@ -126,6 +152,8 @@ def run_spec(spec):
 
     def run():
         prog = bb.loads(text)
+        if si in EDITS:
+            prog = EDITS[si](prog)
         try:
             a0, t0, a1 = snap(prog, bb)
         except engine.Abort:
@@ -200,6 +228,8 @@ def concrete_check(spec, vals, w=None):
     aux._PARAMS.clear()
     try:
         prog = blackbird.loads(text)
+        if si in EDITS:
+            prog = EDITS[si](prog)
     except Exception:  # noqa
         return "skip"
     try:
